@@ -646,7 +646,7 @@ Proof.
         apply IH; auto. cbn [norm_fields] in Hd. simpl in Hd. lia.
   - (* VRef *)
     destruct s; try discriminate. destruct (lookup env id) as [s'|] eqn:El; [|discriminate].
-    cbn [enc norm dec_s]. rewrite El. cbn [need] in Hd.
+    cbn [enc norm dec_s]. rewrite El. cbn [norm] in Hd. rewrite El in Hd. cbn [need] in Hd.
     destruct d as [|d']; [lia|]. cbn [dec]. rewrite El.
     rewrite IHv; auto.
     + eapply lookup_ok; eauto.
@@ -664,4 +664,106 @@ Proof.
   - discriminate.
 Qed.
 
+(* ---------- corollaries ---------- *)
+
+(* protocol.Decode of protocol.Encode, at any AllowableDepth that the value needs, with trailing bytes *)
+Theorem decode_encode : forall id v d rest,
+  W (SRef id) v = true -> (need (NM (SRef id) v) <= d)%nat ->
+  decode env deep d id (E (SRef id) v ++ rest) = Ok (NM (SRef id) v, rest).
+Proof.
+  intros id v d rest Hw Hd.
+  assert (Hs : schema_ok env (SRef id) = true).
+  { destruct v; try discriminate. cbn [wtb] in Hw. cbn [schema_ok]. destruct (lookup env id); [reflexivity|discriminate]. }
+  exact (dec_enc v (SRef id) Hw Hs d zero_val rest Hd).
+Qed.
+
+(* injective up to normal form, and prefix free *)
+Theorem enc_prefix_free : forall s v1 v2 r1 r2,
+  W s v1 = true -> W s v2 = true -> schema_ok env s = true ->
+  E s v1 ++ r1 = E s v2 ++ r2 -> NM s v1 = NM s v2 /\ r1 = r2.
+Proof.
+  intros s v1 v2 r1 r2 H1 H2 Hs He.
+  set (d := Nat.max (need (NM s v1)) (need (NM s v2))).
+  pose proof (dec_enc v1 s H1 Hs d zero_val r1 (Nat.le_max_l _ _)) as D1.
+  pose proof (dec_enc v2 s H2 Hs d zero_val r2 (Nat.le_max_r _ _)) as D2.
+  rewrite He in D1. rewrite D1 in D2. inversion D2. auto.
+Qed.
+
+Theorem enc_inj : forall s v1 v2,
+  W s v1 = true -> W s v2 = true -> schema_ok env s = true ->
+  E s v1 = E s v2 -> NM s v1 = NM s v2.
+Proof.
+  intros s v1 v2 H1 H2 Hs He.
+  destruct (enc_prefix_free s v1 v2 [] [] H1 H2 Hs) as [H _]; [now rewrite He|exact H].
+Qed.
+
+(* bytes that are a canonical encoding decode to a value that re-encodes to exactly these bytes *)
+Theorem reencode_canonical : forall s v0 d zero rest v rest',
+  W s v0 = true -> schema_ok env s = true -> (need (NM s v0) <= d)%nat ->
+  dec_s env deep (dec env deep d) zero s (E s v0 ++ rest) = Ok (v, rest') ->
+  E s v ++ rest' = E s v0 ++ rest /\ NM s v = v.
+Proof.
+  intros s v0 d zero rest v rest' Hw Hs Hd Hdec.
+  rewrite (dec_enc v0 s Hw Hs d zero rest Hd) in Hdec. inversion Hdec; subst.
+  split; [now rewrite enc_norm|apply norm_idem].
+Qed.
+
 End Proofs.
+
+(* ---------- the two Go encoders ---------- *)
+(* msgp (deep = false) and go-codec (deep = true, RecursiveEmptyCheck looks through pointers) can only
+   differ below a non-nil pointer *)
+Fixpoint ptr_free (v : value) : bool :=
+  match v with
+  | VSome _ => false
+  | VRef v' => ptr_free v'
+  | VList l | VStruct l => forallb ptr_free l
+  | VMap l => forallb (fun kv : value * value => ptr_free (fst kv) && ptr_free (snd kv)) l
+  | _ => true
+  end.
+
+Lemma is_zero_ptr_free env : forall v s, ptr_free v = true -> is_zero env false s v = is_zero env true s v.
+Proof.
+  induction v using value_ind2; intros s Hp; try reflexivity; try discriminate.
+  - destruct s; try reflexivity. cbn [is_zero]. cbn [ptr_free] in Hp. rewrite forallb_forall in Hp.
+    apply forallb_ext_in. rewrite Forall_forall in *. intros x Hx. apply H; auto.
+  - destruct s; try reflexivity. rewrite !zero_struct_eq. cbn [ptr_free] in Hp.
+    revert fs. induction H as [|v vs Hv Hvs IH]; intros fs; destruct fs as [|[h fsch] fs]; try reflexivity.
+    cbn [forallb] in Hp. apply andb_true_iff in Hp. destruct Hp as [Hp1 Hp2].
+    cbn [zero_fields]. rewrite IH by assumption. now rewrite Hv.
+  - destruct s; try reflexivity. cbn [is_zero]. destruct (lookup env id); [|reflexivity]. now apply IHv.
+Qed.
+
+Theorem encoders_agree_ptr_free env : forall v s, ptr_free v = true -> enc env false s v = enc env true s v.
+Proof.
+  induction v using value_ind2; intros s Hp; try reflexivity; try discriminate.
+  - destruct s; try reflexivity; cbn [enc]; f_equal; cbn [ptr_free] in Hp; rewrite forallb_forall in Hp;
+      apply flat_map_ext_in; rewrite Forall_forall in *; intros x Hx; apply H; auto.
+  - destruct s; try reflexivity; cbn [enc]. f_equal. cbn [ptr_free] in Hp. rewrite forallb_forall in Hp.
+    apply flat_map_ext_in. rewrite Forall_forall in *. intros [k x] Hx. specialize (Hp _ Hx). simpl in Hp.
+    apply andb_true_iff in Hp. destruct Hp as [Hp1 Hp2]. destruct (H _ Hx) as [Hk Hv]. simpl in Hk, Hv.
+    now rewrite Hk, Hv.
+  - destruct s; try reflexivity. rewrite !enc_struct_eq. cbn [ptr_free] in Hp.
+    assert (Hf : enc_fields env false fs l = enc_fields env true fs l).
+    { revert fs. induction H as [|v vs Hv Hvs IH]; intros fs; destruct fs as [|[h fsch] fs]; try reflexivity.
+      cbn [forallb] in Hp. apply andb_true_iff in Hp. destruct Hp as [Hp1 Hp2].
+      cbn [enc_fields]. rewrite IH by assumption. unfold omitted. rewrite (is_zero_ptr_free env v fsch Hp1).
+      now rewrite Hv. }
+    now rewrite Hf.
+  - destruct s; try reflexivity. cbn [enc]. destruct (lookup env id); [|reflexivity]. now apply IHv.
+Qed.
+
+(* ... and they DO differ on a non-nil pointer to a zero value (transactions.Transaction with
+   HeartbeatTxnFields = &HeartbeatTxnFields{}; replayed on the real encoders by the harness) *)
+Definition wit_env : list schema :=
+  [ SStruct [ (mkF [104; 98] 0 false true, SPtr (SRef 1)) ];
+    SStruct [ (mkF [97] 0 false true, SUint 255) ] ].
+Definition wit_val : value := VRef (VStruct [ VSome (VRef (VStruct [ VUint 0 ])) ]).
+
+Theorem encoders_agree_refuted :
+  exists env s v, env_ok env = true /\ wtb env false s v = true /\ wtb env true s v = true /\
+                  enc env false s v <> enc env true s v.
+Proof.
+  exists wit_env, (SRef 0), wit_val. repeat split; try (vm_compute; reflexivity).
+  vm_compute. discriminate.
+Qed.
